@@ -1631,7 +1631,7 @@ def corr(ctx, oracle_only=False, scale=1):
     t1 = time.time()
     part_steps(ctx, res, ctx.n(800, 25000) * scale, use_model)
     part_update(ctx, res, ctx.n(300, 8000) * scale)
-    part_setup(ctx, res, ctx.n(60, 1500) * scale, real_search=ctx.n(2, 20))
+    part_setup(ctx, res, ctx.n(35, 1200) * scale, real_search=ctx.n(1, 12))
     t2 = time.time()
     part_real_thermo(ctx, res, ctx.n(6, 150))
     t3 = time.time()
